@@ -215,12 +215,12 @@ def check_C01(ctx, unit):
                 if all(lp.contains(n) for n in fl) and lp.ivar is not None:
                     step_ok = st is not None and st[0] == "+=" and std_unwrap(st[1]).kind == "DeclRefExpr" \
                         and std_unwrap(st[1]).d["d"] == item
-                    bp = path(lp.bound) if lp.bound is not None else None
+                    bp = path(RA.resolve_local(f, lp.bound, inits)) if lp.bound is not None else None
                     bound_ok = bool(bp) and bp[-1] == "length" and slbv is not None and bp[0].endswith("#%d" % slbv) and lp.op == "<"
-                    wh = std_unwrap(f.node(fl[0].get("pargs")[0]))
+                    wh = std_unwrap(RA.resolve_local(f, f.node(fl[0].get("pargs")[0]), inits))
                     where_ok = False
                     if wh.kind == "BinaryOperator" and wh.op == "+":
-                        ops = [std_unwrap(x) for x in wh.children]
+                        ops = [std_unwrap(RA.resolve_local(f, x, inits)) for x in wh.children]
                         for x, y in ((ops[0], ops[1]), (ops[1], ops[0])):
                             px = path(x)
                             if px and px[-1] == "address" and slbv is not None and px[0].endswith("#%d" % slbv) and y.kind == "DeclRefExpr" and y.d["d"] == lp.ivar:
@@ -454,17 +454,35 @@ def check_C02(ctx, unit):
                         problems.append("copy length takes values %s" % sorted(set(defs)))
                 else:
                     problems.append("copy length is %s" % canon(cnt))
-            # in-place arms
-            for r in f.return_nodes():
+            # in-place arms: stated on realloc *with its bool-returning private helpers folded in*, so the rule reads the
+            # same whether reallocate_*_ exist or have been inlined by hand: the old pointer is returned only under
+            # new_size <= usable size of the block
+            from .inline import inline_variant
+            byd = {g.d["did"]: g for g in fns}
+
+            def sel(cal, byd=byd):
+                g = byd.get(cal.get("did"))
+                return g is not None and g.get("access") in ("private", "protected") and (g.get("ret") or "") == "bool"
+            fi = inline_variant(unit, f, sel)
+            ns_did = f.params()[-1]["d"]
+            arms = 0
+            for r in fi.return_nodes():
                 v = r.child("val")
                 if v is not None and std_unwrap(v).kind == "DeclRefExpr" and std_unwrap(v).d["d"] == f.params()[0]["d"]:
+                    arms += 1
                     okp = False
-                    for cond, truth in flow.facts_at(f, r.id):
-                        c = cond.strip()
-                        if truth and c.is_call() and c.callee and c.callee["n"].startswith("reallocate_"):
+                    for cond, truth in flow.facts_at(fi, r.id):
+                        rel = flow.fact_relation(cond, truth)
+                        if rel is None:
+                            continue
+                        a_, op_, b_ = rel
+                        if op_ in ("<=", "<", "==") and std_unwrap(a_).kind == "DeclRefExpr" and std_unwrap(a_).d["d"] == ns_did and \
+                                _usable_size_shape(fi, b_) in ("bucket_to_size(<frame>.index)", "<frame>.length"):
                             okp = True
                     if not okp:
-                        problems.append("returns the old pointer at %s without an in-place helper having succeeded" % r.loc)
+                        problems.append("returns the old pointer at %s without new_size <= usable size known on that path" % r.loc)
+            if arms < 2:
+                problems.append("expected an in-place arm for slab blocks and one for large blocks, found %d" % arms)
             ctx.inst("E.realloc-copy", "%s::realloc%s" % (POOL, tag), not problems, f.loc,
                      "; ".join(problems) if problems else "allocate, test, memcpy(old usable size), free(old), return new", f)
         for name in ("reallocate_in_slab_", "reallocate_huge_"):
@@ -510,92 +528,127 @@ def check_C02(ctx, unit):
             ctx.inst("E.reuse-before-map", "%s::allocate%s" % (POOL, tag), ok and okr, f.loc,
                      "_construct_slab only when the bucket has no head slab: %s; a slab that became full leaves the partial tree "
                      "and the head is recomputed: %s" % (ok, okr), f)
-        # head repair: at both sites (allocate after attaching a fresh slab, free after re-inserting a full one) the
-        # slab becomes head exactly when there is no head or it lies at a lower address. Decided semantically: the
-        # guard is evaluated under every small valuation of (head present?, slab address, head address).
+        # head repair: after a slab X is (re-)inserted into the partial tree, X becomes the head exactly when there is no
+        # head or X lies at a lower address.  Decided exactly: from the insert call on, the CFG is walked once for each of
+        # the 18 valuations of (head present?, X.address, head.address), every branch that depends on them is
+        # evaluated, and at the function's exit `head == X` must equal the expected outcome.  No assumption about how
+        # the test is spelled (one `||`, nested ifs, else-if, a helper).
         n_sites = 0
         for name in ("allocate", "free_in_slab_"):
             for f in bn.get(name, []):
-                k = 0
-                for n in sorted(f.events(), key=lambda n: _lockey(n.loc)):
-                    w = write_of(n)
-                    if not (w and w[0] and w[0][-1] == "head_slb" and w[1] is not None):
+                ins = [n for n in f.events() if n.is_call() and n.callee and n.callee["n"] == "insert" and n.args
+                       and n.kind == "CXXMemberCallExpr" and path(n.child("obj")) and path(n.child("obj"))[-1] == "partial_tree"]
+                for k, ic in enumerate(sorted(ins, key=lambda n: _lockey(n.loc))):
+                    xp = path(ic.args[0])
+                    if not xp or len(xp) != 1:
                         continue
-                    sv = std_unwrap(w[1])
-                    sp = path(sv)
-                    if not (sp and len(sp) == 1):
-                        continue          # head_slb = partial_tree.first() etc.
-                    k += 1
                     n_sites += 1
-                    guard = None
-                    pm = f.parent_map()
-                    cur = n.id
-                    while cur in pm:
-                        cur = pm[cur]
-                        x = f.node(cur)
-                        if x.kind == "IfStmt" and x.child("then") is not None and any(y.id == n.id for y in x.child("then").walk()):
-                            guard = x.child("cond")
-                            break
-                    ok, why = True, ""
-                    if guard is None:
-                        ok, why = False, "the head is overwritten unconditionally"
-                    else:
-                        for present in (0, 1):
-                            for s_ in (0, 1, 2):
-                                for h_ in (0, 1, 2):
-                                    def val(leaf, present=present, s_=s_, h_=h_):
-                                        p = path(leaf)
-                                        if not p:
-                                            return None
-                                        if p[-1] == "head_slb":
-                                            return present
-                                        if p[-1] == "address" and len(p) >= 2 and p[-2] == "head_slb":
-                                            return h_ if present else None
-                                        if p[-1] == "address" and p[0] == sp[0]:
-                                            return s_
-                                        return None
-                                    got = flow.sem_eval(guard, val)
-                                    want = 1 if not present else int(s_ < h_)
-                                    if got is None or bool(got) != bool(want):
-                                        ok = False
-                                        why = "guard %s is %s for (head %s, slab address %d, head address %d), expected %s" % (
-                                            _strip_ids(canon(guard)), got, "present" if present else "absent", s_, h_, bool(want))
-                    ctx.inst("E.reuse-before-map", "%s::%s: head repair #%d%s" % (POOL, name, k, tag), ok, n.loc,
-                             why or "slab installed as head iff there is no head or its address is lower (all 18 valuations)", f)
+                    bad = []
+
+                    def mkval(st, xp=xp):
+                        def val(leaf):
+                            p_ = path(leaf)
+                            if not p_:
+                                return None
+                            if p_[-1] == "head_slb":
+                                return 1 if (st[3] or st[0]) else 0
+                            if p_[-1] == "address" and len(p_) >= 2 and p_[-2] == "head_slb":
+                                return st[1] if st[3] else (st[2] if st[0] else None)
+                            if p_[-1] == "address" and p_[0] == xp[0] and len(p_) == 2:
+                                return st[1]
+                            return None
+                        return val
+
+                    def transfer(n, st, ic=ic, xp=xp):
+                        if st is None:
+                            if n.id == ic.id:
+                                return [(pr, s_, h_, False) for pr in (0, 1) for s_ in (0, 1, 2) for h_ in (0, 1, 2)]
+                            return [st]
+                        w = write_of(n)
+                        if w and w[0] and w[0][-1] == "head_slb" and n.kind == "BinaryOperator":
+                            vp = path(std_unwrap(w[1])) if w[1] is not None else None
+                            if vp == xp:
+                                return [(st[0], st[1], st[2], True)]
+                            return [(st[0], st[1], st[2], "other")]
+                        return [st]
+
+                    def refine(cond, truth, st):
+                        if st is None:
+                            return [st]
+                        v = flow.sem_eval(cond, mkval(st))
+                        if v is None or bool(v) == truth:
+                            return [st]
+                        return []
+                    _, ex = flow.run(f, [None], transfer, refine, limit=100000)
+                    for st in sorted(x for x in ex if x is not None):
+                        want = (not st[0]) or st[1] < st[2]
+                        if st[3] != want:
+                            bad.append("head %s, slab address %d, head address %d: slab %s the head, expected %s" % (
+                                "present" if st[0] else "absent", st[1], st[2],
+                                "becomes" if st[3] is True else ("is replaced by something else as" if st[3] == "other" else "does not become"),
+                                "head" if want else "no change"))
+                    ctx.inst("E.reuse-before-map", "%s::%s: head repair #%d%s" % (POOL, name, k + 1, tag), not bad, ic.loc,
+                             "; ".join(bad[:3]) if bad else "slab installed as head iff there is no head or its address is lower (all 18 valuations, path-sensitive)", f)
         if n_sites < 2:
             raise AnalysisBroken("anchor vanished: head-slab repair sites (found %d)" % n_sites)
+        # free_in_slab_: the slab is re-inserted exactly when it was full *before* this block was pushed onto its list.
+        # Exact: the function is walked for both entry values of `available` (null / non-null); locals snapshot what they
+        # are initialised from, the push makes `available` non-null, every branch over those is evaluated.
         for f in bn.get("free_in_slab_", []):
-            inits = RA.local_inits(f)
-            def _is_full_test(i):
-                def mk(v):
-                    def val(leaf):
-                        p = path(leaf)
-                        return v if (p and p[-1] == "available") else None
-                    return val
-                return flow.sem_eval(i, mk(0)) == 1 and flow.sem_eval(i, mk(1)) == 0
-            flagd = [d for d, i in inits.items() if _is_full_test(i)]
+            ins = [n for n in f.events() if n.is_call() and n.callee and n.callee["n"] == "insert" and n.kind == "CXXMemberCallExpr"
+                   and path(n.child("obj")) and path(n.child("obj"))[-1] == "partial_tree"]
             push = [n for n in f.events() if write_of(n) and write_of(n)[0] and write_of(n)[0][-1] == "available" and n.kind == "BinaryOperator"]
+            if not ins or not push:
+                raise AnalysisBroken("anchor vanished: free-list push / partial-tree insert in %s" % f.qn)
             problems = []
-            if not flagd:
-                problems.append("'slab was full' is not captured before the push")
-            else:
-                decl = [x for x in f.events() if x.kind == "DeclStmt" and any(d["d"] == flagd[0] for d in x.get("decls", []))]
-                if not (decl and push and all(f.dominates(decl[0].id, p.id) for p in push)):
-                    problems.append("'slab was full' is evaluated after the object was pushed")
-                ins = [n for n in f.events() if n.is_call() and n.callee and n.callee["n"] == "insert"]
-                g = False
-                for i_ in ins:
-                    for cond, truth in flow.facts_at(f, i_.id):
-                        c, tt = cond.strip(), truth
-                        while c.kind == "UnaryOperator" and c.op == "!":
-                            c, tt = c.children[0].strip(), not tt
-                        if c.kind == "DeclRefExpr" and c.d["d"] == flagd[0] and tt:
-                            hw = [w for w in f.events() if write_of(w) and write_of(w)[0] and write_of(w)[0][-1] == "head_slb" and f.reaches(i_.id, w.id)]
-                            g = bool(hw)
-                if not g:
-                    problems.append("a formerly full slab is not re-inserted into the partial tree with the head repaired")
+
+            def mkval2(st):
+                cur, snaps = st[1], dict(st[2])
+
+                def val(leaf):
+                    x = leaf.strip()
+                    if x.kind == "DeclRefExpr" and x.get("local") and x.d["d"] in snaps:
+                        return snaps[x.d["d"]]
+                    p_ = path(leaf)
+                    if p_ and p_[-1] == "available" and len(p_) == 2:
+                        return cur
+                    return None
+                return val
+
+            def transfer2(n, st):
+                entry, cur, snaps, inserted = st
+                if n.kind == "DeclStmt":
+                    sn = dict(snaps)
+                    for d in n.get("decls", []):
+                        if "init" in d:
+                            v = flow.sem_eval(f.node(d["init"]), mkval2(st))
+                            if v is not None:
+                                sn[d["d"]] = int(v)
+                            else:
+                                sn.pop(d["d"], None)
+                    return [(entry, cur, tuple(sorted(sn.items())), inserted)]
+                if any(n.id == p_.id for p_ in push):
+                    return [(entry, 1, snaps, inserted)]
+                if any(n.id == i_.id for i_ in ins):
+                    return [(entry, cur, snaps, True)]
+                return [st]
+
+            def refine2(cond, truth, st):
+                v = flow.sem_eval(cond, mkval2(st))
+                if v is None or bool(v) == truth:
+                    return [st]
+                return []
+            _, ex = flow.run(f, [(0, 0, (), False), (1, 1, (), False)], transfer2, refine2, limit=100000)
+            for st in sorted(ex):
+                if st[0] == 0 and not st[3]:
+                    problems.append("a slab that was full before the push is not re-inserted into the partial tree "
+                                    "(the decision reads `available` after the push, or is missing)")
+                if st[0] == 1 and st[3]:
+                    problems.append("a slab that already had free objects is inserted into the partial tree a second time")
+            if not ex:
+                problems.append("no normal exit")
             ctx.inst("E.reuse-before-map", "%s::free_in_slab_%s" % (POOL, tag), not problems, f.loc,
-                     "; ".join(problems) if problems else "full-test before push; re-insert + head repair under it", f)
+                     "; ".join(sorted(set(problems))) if problems else "re-inserted iff `available` was null before the push (both entry values, path-sensitive)", f)
 
 
 def _is_zero_fact(cond, truth, did):
